@@ -1,6 +1,7 @@
 """C17 - the HTTP interface behaves like the embedded one (error mapping, insert ordering, JSON tables)."""
 from rules import shell as S
 from rules import tables as T
+from rules import builders as B
 
 
 def run(ctx):
@@ -8,6 +9,7 @@ def run(ctx):
     ctx.run(S.ord9_insert)
     ctx.run(T.tbl11_json_renderers)
     ctx.run(S.ord14_multi_query_positional)
+    ctx.run(B.tbl25_decoder_validates_what_the_applier_assumes)
     return ctx.finish(
         'Static analysis: every handler that runs a query maps the error to a non-2xx response '
         'and none unwraps it; insert_bin answers 200 only on the Ready edge of the ingestion future '
